@@ -302,6 +302,12 @@ def run(ctx):
                               "read_swanow on two overlapping cycles: %s" % probs[0][:300], {"seed": seed})
             else:
                 ctx.replayed()
+        # ---- the SWAN ASCII file as a writer/reader protocol (SwanFile.tla): model-checked, replayed into the real writer and
+        # reader, and every recorded read validated by SwanFileTrace.tla
+        from harness import swanfile_ext
+        d3 = os.path.join(tmp, "swanfile")
+        os.makedirs(d3)
+        swanfile_ext.stage(ctx, d3)
     finally:
         shutil.rmtree(tmp, ignore_errors=True)
     # vendor samples decoded independently
